@@ -293,6 +293,35 @@ def verified_source(ctx, flow, copyfns, reach):
             else:
                 # source = select(...): the candidate is chosen by a package function; judge each place where it returns one
                 vals = [p_ for w_, p_ in ctx.res.bindings(caller).get(s.id, []) if w_ == "value"]
+                # source = None; for cand in <index>: if <verified>: source = cand; break   ...   copy(source)
+                picks = [v for v in vals if isinstance(v, ast.Name)]
+                blanks = [v for v in vals if isinstance(v, ast.Constant) and v.value is None]
+                if picks and len(picks) + len(blanks) == len(vals) == len(ctx.res.bindings(caller).get(s.id, [])):
+                    chosen = []
+                    for v in picks:
+                        st_pick = ctx.prog.enclosing_stmt(v)
+                        lp, _, _ = candidate_loop(ctx, caller, st_pick, v.id)
+                        if lp is not None:
+                            chosen.append((st_pick, v.id))
+                    if len(chosen) == len(picks):
+                        g_ = C.cfg_of(caller)
+                        cn_ = C.stmt_node(ctx, caller, call)
+                        def when_none(x, name=s.id):
+                            """Value of a test atom when nothing was selected (the variable still holds None)."""
+                            if isinstance(x, ast.Name) and x.id == name:
+                                return False
+                            if isinstance(x, ast.Compare) and len(x.ops) == 1 and norm(x.left) == name and isinstance(x.comparators[0], ast.Constant) and x.comparators[0].value is None:
+                                if isinstance(x.ops[0], (ast.Is, ast.Eq)):
+                                    return True
+                                if isinstance(x.ops[0], (ast.IsNot, ast.NotEq)):
+                                    return False
+                            return None
+                        skipped = (not blanks) or any(C.branch_when(b, when_none) not in (None, lab) for b, lab in g_.control_deps(cn_) if C.test_expr(b) is not None)
+                        if not skipped:
+                            ctx.undecided("C14.3", caller, "the copy of %r is not visibly skipped when no candidate was selected" % s.id, call)
+                        for st_pick, cand in chosen:
+                            judge_selection(ctx, flow, caller, st_pick, cand, "%s -> %s" % (norm(call)[:40], norm(st_pick)[:40]))
+                        continue
                 sel = [t for v in vals if isinstance(v, ast.Call) for t in C.targets_of(ctx, caller, v)] if len(vals) == 1 else []
                 rets = [(f_, r) for f_ in sel for r in own_nodes(f_.node) if isinstance(r, ast.Return) and r.value is not None and not (isinstance(r.value, ast.Constant) and r.value.value is None)]
                 parked = _parked_candidates(ctx, flow, caller, vals[0]) if len(vals) == 1 and not sel else None
